@@ -29,6 +29,10 @@ func runC09(r *Report, tier string) {
 			checkModeOptions(r, "R09.4", mc, map[string]int64{"Sort": P.cborConst("SortBytewiseLexical"), "IndefLength": P.cborConst("IndefLengthForbidden")}, nil)
 		}
 	}
+	// the captured bytes are the decoded value's own: fresh destinations, no
+	// aliasing of the input or of an earlier decode (C19's rules; without
+	// them "untouched" does not mean "unchanged")
+	runC19(r, tier)
 }
 
 // checkSignMessageOrder: the COSE_Sign encoder appends the encoding of
